@@ -293,7 +293,18 @@ pub fn run(ctx: &mut Ctx) {
             p.seals.push(SealSpec::Fp);
         }
         ctx.eval();
-        match build_program(&p) {
+        // one program in four on a builder that is measured / serialised / cloned between additions
+        let built = if i % 4 == 3 {
+            crate::ctx::guard(|| {
+                let objs = make_objs(&p).ok()?;
+                apply_program_observed(&p, &objs).ok().map(|b| b.build())
+            })
+            .ok()
+            .flatten()
+        } else {
+            build_program(&p)
+        };
+        match built {
             Some(bytes) => {
                 let want = p.reference_bytes();
                 let n = bytes.len();
